@@ -10,6 +10,23 @@ def run(ctx, info):
     ctx.assumptions += ["pydantic's validation of the config class is the reference for 'accepted or rejected'"]
     for n, bad in c07.facts(ctx, info, ("ctor_deref", "canon", "stale")).items():
         ctx.violation(f"skeleton:{n}:{'+'.join(sorted(bad))}", f"{n}: {bad}", {"kind": "skeleton", "optimizer": n, "facts": bad})
+    # what is "invalid" is what the pinned tree's validators reject: the accept / reject table of every configuration class on a fixed probe set must be the recorded one
+    from .. import validators
+    from ..expected import load_expectations
+    want = load_expectations().get("c18_validators", {})
+    got = validators.table()
+    n_probe = 0
+    for nm, row in want.items():
+        for f, sig in row.items():
+            now = got.get(nm, {}).get(f)
+            n_probe += len(sig)
+            if now is None or now == sig: continue
+            k = next(i for i, (a, b) in enumerate(zip(sig, now)) if a != b)
+            pv_ = validators.describe(validators.PROBES[k])
+            ctx.violation(f"validator:{nm}:{f}", f"{nm}: a configuration with {f}={pv_} is now {'accepted' if now[k] == 'a' else 'rejected'} by set_config_parameters / the configuration class "
+                          f"(the pinned validators {'reject' if sig[k] == 'r' else 'accept'} it)", {"kind": "validator", "optimizer": nm, "field": f, "value": pv_})
+    ctx.add_cover(n_probe, n_probe, "accept / reject outcome of every configuration class on 13 probe values (0, negatives, range ends, huge, inf, -inf, NaN) per numeric field vs the "
+                  "recorded table of the pinned tree", ["population_size", "nan"])
     n_api = L.c18_api(ctx)
     pairs = L.c18_jobs(ctx)
     obs = L.run_pairs(pairs)
